@@ -332,6 +332,10 @@ func NewOpLib() *OpLib {
 		a := w.A("t1")
 		p.Txs = one("t1", &ammtypes.MsgJoinPool{Sender: a.Addr.String(), PoolId: 1, MaxAmountsIn: sdk.NewCoins(C("uusdc", 5e10)), ShareAmountOut: I(1)})
 	})
+	l.Add("join_p1_single_atom_t2", "join", 0, func(w *World, p *BlockPlan) {
+		a := w.A("t2")
+		p.Txs = one("t2", &ammtypes.MsgJoinPool{Sender: a.Addr.String(), PoolId: 1, MaxAmountsIn: sdk.NewCoins(C("uatom", 2e10)), ShareAmountOut: I(1)})
+	})
 	l.Add("join_p1_single_atom_dust_t2", "join", 0, func(w *World, p *BlockPlan) {
 		a := w.A("t2")
 		p.Txs = one("t2", &ammtypes.MsgJoinPool{Sender: a.Addr.String(), PoolId: 1, MaxAmountsIn: sdk.NewCoins(C("uatom", 3)), ShareAmountOut: I(1)})
@@ -550,6 +554,9 @@ func NewOpLib() *OpLib {
 	bond("bond_lp1_XL", "lp1", 5e12)
 	bond("bond_lp1_D", "lp1", 1)
 	bond("bond_lp2_D", "lp2", 3)
+	// role collisions: a BORROWER (leveraged-LP position owner) who also lends
+	bond("bond_t1_L", "t1", 1e10)
+	bond("bond_t2_L", "t2", 1e10)
 	unbond := func(name, who string, num, den, minus int64) {
 		l.Add(name, "unbond", 0, func(w *World, p *BlockPlan) {
 			have := w.CommittedOf(w.A(who).Addr, sstypes.GetShareDenom())
@@ -565,6 +572,7 @@ func NewOpLib() *OpLib {
 	unbond("unbond_lp2_all", "lp2", 1, 1, 0)
 	unbond("unbond_lp2_D", "lp2", 0, 1, -1)
 	unbond("unbond_lp1_all", "lp1", 1, 1, 0)
+	unbond("unbond_t1_half", "t1", 1, 2, 0)
 	// ---- fees / donations
 	for _, d := range []string{"uusdc", "uatom", "uelys"} {
 		d := d
